@@ -340,16 +340,26 @@ class FnEmit:
         if n.startswith('llvm.expect'): return args[0]
         if n.startswith('llvm.memcpy') or n.startswith('llvm.memmove'):
             a2 = ins.args[2]
-            if a2.kind == 'int' and 0 < a2.v <= 4096:
-                cx.bytes_types.add(a2.v)
-                return 'do { ir2c_bytes_%d t_ = *(ir2c_bytes_%d*)%s; *(ir2c_bytes_%d*)%s = t_; } while (0)' % (a2.v, a2.v, args[1], a2.v, args[0])
+            if a2.kind == 'int' and 0 < a2.v <= 512:
+                nb = a2.v; parts = []; st = []; off = 0; k = 0
+                while off < nb:
+                    for w, ct in ((8, 'uint64_t'), (4, 'uint32_t'), (2, 'uint16_t'), (1, 'uint8_t')):
+                        if nb - off >= w: break
+                    parts.append('%s w%d_ = *(%s*)(%s + %d);' % (ct, k, ct, args[1], off)); st.append('*(%s*)(%s + %d) = w%d_;' % (ct, args[0], off, k)); off += w; k += 1
+                return 'do { %s %s } while (0)' % (' '.join(parts), ' '.join(st))
+            if a2.kind == 'int' and a2.v % 8 == 0:
+                return 'm_memcpy_words(%s, %s, %d)' % (args[0], args[1], a2.v // 8)
             f = 'm_memcpy' if 'memcpy' in n else 'm_memmove'
             return '%s(%s, %s, %s)' % (f, args[0], args[1], args[2])
         if n.startswith('llvm.memset'):
             a2 = ins.args[2]; a1 = ins.args[1]
-            if a2.kind == 'int' and 0 < a2.v <= 4096 and a1.kind == 'int' and a1.v == 0:
-                cx.bytes_types.add(a2.v)
-                return '*(ir2c_bytes_%d*)%s = (ir2c_bytes_%d){{0}}' % (a2.v, args[0], a2.v)
+            if a2.kind == 'int' and 0 < a2.v <= 4096 and a1.kind == 'int':
+                nb = a2.v; st = []; off = 0; bv = a1.v & 255
+                while off < nb:
+                    for w, ct in ((8, 'uint64_t'), (4, 'uint32_t'), (2, 'uint16_t'), (1, 'uint8_t')):
+                        if nb - off >= w: break
+                    st.append('*(%s*)(%s + %d) = (%s)0x%sULL;' % (ct, args[0], off, ct, ('%02x' % bv) * w)); off += w
+                return 'do { %s } while (0)' % ' '.join(st)
             return 'm_memset(%s, %s, %s)' % (args[0], args[1], args[2])
         if n == 'llvm.trap':
             return 'do { __CPROVER_assert(0, "llvm.trap reached"); __CPROVER_assume(0); } while (0)'
@@ -640,7 +650,7 @@ MODELS = {'m_memcmp', 'm_free', 'm_malloc', 'm_posix_memalign', 'm_abort', 'm_st
           '__cxa_allocate_exception', '__cxa_throw', '__cxa_begin_catch', '__cxa_end_catch', '__cxa_free_exception', '__cxa_rethrow',
           '__cxa_guard_acquire', '__cxa_guard_release', '__cxa_guard_abort', '__cxa_atexit', '__cxa_thread_atexit', '_ZSt9terminatev', '__clang_call_terminate',
           '__cxa_pure_virtual', '_ZSt17__throw_bad_allocv', '_ZSt20__throw_length_errorPKc', '_ZSt28__throw_bad_array_new_lengthv',
-          '_ZNSt8ios_base4InitC1Ev', '_ZNSt8ios_base4InitD1Ev', '__CPROVER_assume', '__CPROVER_assert', '_ZSt19__throw_logic_errorPKc', '_ZSt24__throw_out_of_range_fmtPKcz'}
+          '_ZNSt8ios_base4InitC1Ev', '_ZNSt8ios_base4InitD1Ev', '__CPROVER_assume', '__CPROVER_assert', '__CPROVER_atomic_begin', '__CPROVER_atomic_end', '_ZSt19__throw_logic_errorPKc', '_ZSt24__throw_out_of_range_fmtPKcz'}
 
 PRELUDE = r'''
 #include <stdint.h>
@@ -684,6 +694,7 @@ static void m_free(ptr p) { if (p) ir2c_live_allocs--; free(p); }
 static ptr m_malloc(uint64_t n) { return ir2c_alloc(n); }
 static uint32_t m_posix_memalign(ptr out, uint64_t al, uint64_t n) { ptr p = ir2c_alloc(n); if (!p) return 12; *(ptr*)out = p; return 0; }
 static uint32_t m_memcmp(ptr a, ptr b, uint64_t n) { for (uint64_t i = 0; i < n; i++) { if (a[i] != b[i]) return (uint32_t)((int)a[i] - (int)b[i]); } return 0; }
+static void m_memcpy_words(ptr d, ptr s, uint64_t n) { for (uint64_t i = 0; i < n; i++) ((uint64_t*)d)[i] = ((uint64_t*)s)[i]; }
 static ptr m_memcpy(ptr d, ptr s, uint64_t n) { for (uint64_t i = 0; i < n; i++) d[i] = s[i]; return d; }
 static ptr m_memmove(ptr d, ptr s, uint64_t n) { if ((uintptr_t)d <= (uintptr_t)s) { for (uint64_t i = 0; i < n; i++) d[i] = s[i]; } else { for (uint64_t i = n; i > 0; i--) d[i-1] = s[i-1]; } return d; }
 static ptr m_memset(ptr d, uint32_t c, uint64_t n) { for (uint64_t i = 0; i < n; i++) d[i] = (uint8_t)c; return d; }
